@@ -186,4 +186,20 @@ void *_dispatch_wait_for_enqueuer(void **ptr);
 #endif
 #endif // HAVE_MACH
 
+#if DISPATCH_VERIF
+// Verification hook (guard: DISPATCH_VERIF): a busy-wait iteration becomes a
+// visible wait for an external scheduler; falls back to the hardware pause
+// when no callback is installed.
+#undef dispatch_hardware_pause
+#if defined(__x86_64__) || defined(__i386__)
+#define _dispatch_verif_hardware_pause() __asm__("pause")
+#else
+#define _dispatch_verif_hardware_pause() __asm__("")
+#endif
+#define dispatch_hardware_pause() \
+		(__builtin_expect(_dispatch_verif_spin_hook != 0, 0) ? \
+		_dispatch_verif_spin_hook() : (void)({ \
+		_dispatch_verif_hardware_pause(); }))
+#endif // DISPATCH_VERIF
+
 #endif // __DISPATCH_SHIMS_YIELD__
